@@ -13,6 +13,7 @@ CHECKS = {
     'C01': 'checks_sem.check_c01',
     'C02': 'checks_sem.check_c02',
     'C09': 'checks_load.check_c09',
+    'C10': 'checks_misc.check_c10',
     'C11': 'checks_sem.check_c11',
     'C14': 'checks_load.check_c14',
     'C15': 'checks_load.check_c15',
